@@ -1599,6 +1599,18 @@ DECODE_MORE:
         return decodeErr; /* Will be a negative value */
 
     case SSL_ALERT:
+        /* As for application data: the Finished that completed the handshake
+           may have been decoded just before this alert, in the same call.
+           The handshake is complete all the same (and, on a client, the
+           session resumable) - as it is when the alert comes a call later. */
+        if (!(ssl->bFlags & BFLAG_HS_COMPLETE) &&
+            matrixSslHandshakeIsComplete(ssl))
+        {
+            ssl->bFlags |= BFLAG_HS_COMPLETE;
+#ifdef USE_CLIENT_SIDE_SSL
+            matrixSslGetSessionId(ssl, ssl->sid);
+#endif      /* USE_CLIENT_SIDE_SSL */
+        }
         if (alertLevel == SSL_ALERT_LEVEL_FATAL)
         {
             psTraceIntInfo("Received FATAL alert %d.\n", alertDesc);
